@@ -15,8 +15,26 @@
 (*                 memory whose removal has not reached the file yet is    *)
 (*                 merged back -- and the file then loses it for good      *)
 (*                                                                         *)
-(* Refresh is modelled where no temp file exists (the walk also deletes    *)
-(* `local.tmp.*`, which would make an in-flight rename fail: not modelled).*)
+(* RefreshTemp  what that walk does with `local.tmp.*`, the temp file of a  *)
+(*   persist that is between CreateTemp and Rename at that moment:         *)
+(*   "leave"    nothing (the code as written: skipLocal covers the temp    *)
+(*              file too, it belongs to the persist that owns it)          *)
+(*   "delete"   the walk's "leftover temp file of an interrupted persist"  *)
+(*              cleanup removes it (the model mutant): the writer goes on  *)
+(*              writing to its descriptor, os.Rename fails, the write is   *)
+(*              dropped with a log line and `local` stays behind memory    *)
+(* Refresh is enabled at every point of a persist (with "rereadLocal" only *)
+(* where no temp file exists: that old walk parsed the temp file as a list,*)
+(* which is not modelled).                                                 *)
+(*                                                                         *)
+(* Faults / Cleanup  the I/O faults of BlPersist.tla (TempVanish,          *)
+(*   FailWrite, RenameFail) as steps of the environment: Faults is the set *)
+(*   of kinds enabled ("vanish", "write"), Cleanup what the failure path   *)
+(*   of persist removes ("temp" as written, "local" = the mutant).  With   *)
+(*   faults Converged is not owed (persist is best effort: the error is    *)
+(*   logged, memory stays); what IS owed is PreviousFileKept: the failed   *)
+(*   persist leaves the previous complete `local`, and FaultConverged:     *)
+(*   whenever the newest snapshot did reach the disk, file = memory.       *)
 (***************************************************************************)
 EXTENDS BlPersist
 
@@ -25,6 +43,9 @@ CONSTANTS RefreshMode,
                           \* loadInitial creates nothing, refreshRemote creates the directory a second later)
           PersistMkdir,   \* BOOLEAN: persist creates the directory when it is missing (the code after its
                           \* repair); FALSE = os.CreateTemp fails in a missing directory, persist logs and returns
+          RefreshTemp,    \* "leave" | "delete"
+          Faults,         \* SUBSET {"vanish", "write"}
+          Cleanup,        \* "temp" | "local"
           LoaderExact     \* BOOLEAN: the loader inserts every line of `local` (the code after its repair);
                           \* FALSE = it skips a line that what it has loaded so far already covers (`!b.Exists`)
 VARIABLES refreshed, dir
@@ -32,16 +53,20 @@ VARIABLES refreshed, dir
 rvars == <<vars, refreshed, dir>>
 
 ASSUME DirAtStart \/ InitMem = {}
+ASSUME RefreshTemp \in {"leave", "delete"} /\ Cleanup \in {"temp", "local"} /\ Faults \subseteq {"vanish", "write"}
 
 InitR == Init /\ refreshed = FALSE /\ dir = DirAtStart
 
 Refresh ==
-  /\ Alive /\ ~refreshed /\ ~tmp.ex
+  /\ Alive /\ ~refreshed
+  /\ RefreshMode = "rereadLocal" => ~tmp.ex
   /\ refreshed' = TRUE /\ dir' = TRUE      \* refreshRemote: os.Mkdir when the directory is missing
   /\ IF RefreshMode = "rereadLocal" /\ local.ex
        THEN \E sq \in FileOrders(local.lines) : mem' = ReloadSeq(sq, mem)
        ELSE mem' = mem
-  /\ UNCHANGED <<version, lastPersisted, holder, pc, opi, snap, local, tmp, crashed, hist, localVer>>
+  \* readLists(skipLocal = TRUE) meets the temp file of the persist in flight
+  /\ tmp' = IF RefreshTemp = "delete" THEN [tmp EXCEPT !.ex = FALSE] ELSE tmp
+  /\ UNCHANGED <<version, lastPersisted, holder, pc, opi, snap, local, crashed, hist, localVer>>
 
 (* persist in a missing directory: CreateTemp fails, the error is logged, the call returns; nothing reached disk *)
 PersistFail(p) ==
@@ -51,12 +76,18 @@ PersistFail(p) ==
   /\ UNCHANGED <<mem, version, lastPersisted, holder, snap, local, tmp, crashed, hist, localVer>>
 
 IsCreateTemp(p) == pc[p] = "snapped" /\ pc'[p] = "tmp"
+(* the failure paths of persist after CreateTemp: a rename whose temp file is gone (always possible once something
+   removed the name: an enabled fault, or Refresh with RefreshTemp = "delete"), a write that fails *)
+FaultStep(p) == RenameFail(p, Cleanup) \/ ("write" \in Faults /\ FailWrite(p, Cleanup))
 StepR(p) ==
-  IF dir \/ PersistMkdir
-    THEN Step(p) /\ dir' = (dir \/ IsCreateTemp(p))
-    ELSE ((Step(p) /\ ~IsCreateTemp(p)) \/ PersistFail(p)) /\ UNCHANGED dir
+  \/ IF dir \/ PersistMkdir
+       THEN Step(p) /\ dir' = (dir \/ IsCreateTemp(p))
+       ELSE ((Step(p) /\ ~IsCreateTemp(p)) \/ PersistFail(p)) /\ UNCHANGED dir
+  \/ FaultStep(p) /\ UNCHANGED dir
 
-NextR == (\E p \in Writers : StepR(p) /\ UNCHANGED refreshed) \/ Refresh
+NextR == \/ \E p \in Writers : StepR(p) /\ UNCHANGED refreshed
+         \/ Refresh
+         \/ "vanish" \in Faults /\ TempVanish /\ UNCHANGED <<refreshed, dir>>
 
 SpecR == InitR /\ [][NextR]_rvars /\ \A p \in Writers : WF_rvars(StepR(p) /\ UNCHANGED refreshed)
 
@@ -69,6 +100,27 @@ ReloadSeqX(sq, acc) ==
   ELSE LET e == Head(sq)
            acc2 == IF Refused(e) \/ (~LoaderExact /\ LineExists(acc, e)) THEN acc ELSE acc \cup {e}
        IN ReloadSeqX(Tail(sq), acc2)
+(* TypeOK / OneTemp of BlPersist with tmp.ex read as "the NAME of the temp file exists": a fault may take the name away
+   while the writer still holds the descriptor *)
+TypeOKF ==
+  /\ mem \subseteq Entries
+  /\ version \in Nat /\ lastPersisted \in 0..version
+  /\ holder \in Writers \cup {0}
+  /\ local.lines \subseteq Entries /\ (~local.ex => local.lines = {})
+  /\ tmp.lines \subseteq Entries
+  /\ Len(hist) = version
+OneTempF ==
+  /\ tmp.ex => \E p \in Writers : pc[p] \in {"tmp", "hdr", "synced", "closed"}
+  /\ \A p \in Writers : pc[p] \in {"tmp", "hdr", "synced", "closed", "renamed"} => holder = p
+  /\ Cardinality({p \in Writers : pc[p] \in {"tmp", "hdr", "synced", "closed", "renamed"}}) <= 1
+(* with faults: every call returned => `local` is a complete snapshot, and it is memory whenever the newest snapshot is
+   the one that reached the disk (a fault on the newest one leaves the previous file: PreviousFileKept) *)
+FaultConverged ==
+  (AllDone /\ Alive) =>
+     /\ DiskIsASnapshot
+     /\ lastPersisted = version => LocalSet = mem /\ (version > 0 => local.ex)
+     /\ local.ex => ReloadFaithful(local.lines)
+
 ReloadsExactly ==
   (AllDone /\ Alive /\ local.ex) => \A sq \in FileOrders(local.lines) : ReloadSeqX(sq, {}) = mem
 =============================================================================
